@@ -2029,10 +2029,9 @@ class PseudoNetCDFFile(PseudoNetCDFSelfReg, object):
             # if anyisarray and isarray[dk]: continue
             dv = self.dimensions[dk]
             if dk in dimslices:
-                if dk in self.variables:
-                    dvar = self.variables[dk]
-                else:
-                    dvar = np.arange(len(dv))
+                # the new length depends only on the old length; a variable
+                # that shares the dimension's name need not be 1-D
+                dvar = np.arange(len(dv))
                 newdl = dvar[dimslices[dk]].size
             else:
                 newdl = len(dv)
